@@ -739,6 +739,7 @@ vbi3_bit_slicer_set_params	(vbi3_bit_slicer *	bs,
 	unsigned int cri_samples;
 	unsigned int reach;
 	unsigned int skip;
+	double phase_shift;
 
 	assert (NULL != bs);
 	assert (cri_bits <= 32);
@@ -1096,9 +1097,8 @@ vbi3_bit_slicer_set_params	(vbi3_bit_slicer *	bs,
 		/* fall through */
 
 	case VBI3_MODULATION_NRZ_LSB:
-		bs->phase_shift	= (int)
-			(sampling_rate * 65536.0 / cri_rate * .5
-			 + bs->step * .5 + 32768);
+		phase_shift = sampling_rate * 65536.0 / cri_rate * .5
+			+ bs->step * .5 + 32768;
 		break;
 
 	case VBI3_MODULATION_BIPHASE_MSB:
@@ -1109,11 +1109,25 @@ vbi3_bit_slicer_set_params	(vbi3_bit_slicer *	bs,
 	case VBI3_MODULATION_BIPHASE_LSB:
 		/* Phase shift between the NRZ modulated CRI and the
 		   biphase modulated rest. */
-		bs->phase_shift	= (int)
-			(sampling_rate * 65536.0 / cri_rate * .5
-			 + bs->step * .25 + 32768);
+		phase_shift = sampling_rate * 65536.0 / cri_rate * .5
+			+ bs->step * .25 + 32768;
+		break;
+
+	default:
+		phase_shift = 0;
 		break;
 	}
+
+	/* Also prevents an overflow of the 16.16 fixed point number. */
+	if (phase_shift >= samples_per_line * 65536.0) {
+		warning (&bs->log,
+			 "%u samples_per_line too small for half a "
+			 "CRI bit and half a payload bit.",
+			 samples_per_line);
+		goto failure;
+	}
+
+	bs->phase_shift = (unsigned int) phase_shift;
 
 	/* The payload loops have no data end check. When the CRI
 	   is found at sample n they read up to sample n + reach:
